@@ -72,7 +72,7 @@ pub fn stream<S: StreamChunks + ?Sized>(src: &S, options: &MapOptions) -> Stream
     &mut |i, n| names.borrow_mut().push((i, n)),
   );
   // only now read the borrowed data
-  let chunks = chunks
+  let chunks: Vec<Chunk> = chunks
     .into_inner()
     .into_iter()
     .map(|(c, m)| Chunk {
@@ -98,6 +98,14 @@ pub fn stream<S: StreamChunks + ?Sized>(src: &S, options: &MapOptions) -> Stream
     .map(|(i, n)| (i, n.to_string()))
     .collect();
   let mut errs = errs.into_inner();
+  // borrowed data read after the call returned must still be the text it was (the binary's allocator overwrites
+  // freed memory with bytes that are not UTF-8)
+  if chunks.iter().any(|c: &Chunk| c.text.as_ref().is_some_and(|t| std::str::from_utf8(t.as_bytes()).is_err()))
+    || sources.iter().any(|s| std::str::from_utf8(s.1.as_bytes()).is_err() || s.2.as_ref().is_some_and(|t| std::str::from_utf8(t.as_bytes()).is_err()))
+    || names.iter().any(|n| std::str::from_utf8(n.1.as_bytes()).is_err())
+  {
+    errs.push("a chunk, source name, content or name read after stream_chunks returned is not UTF-8 any more: the borrow outlived its allocation".into());
+  }
   // announced indices are dense from zero
   for (what, idx) in [
     ("source", sources.iter().map(|s| s.0).collect::<Vec<_>>()),
